@@ -4,7 +4,8 @@
    gates ("a request without object is refused when objects are required").  This file extends the
    step function of C11 to requests WITH a request object, by value or by reference at /authorize
    and by value at /par, using the transcription of jar.go / validation.go in Model/Jar.v
-   (init_auth_jar, push_auth_jar, jar_session).  What it adds to the model of C11 is WHICH parameter
+   (init_auth_jar, push_auth_jar, jar_session; init_back_auth_jar for /bc-authorize, whose decision
+   shouldUseJARDuringCIBA also reads the client's registered CIBA request signing algorithm).  What it adds to the model of C11 is WHICH parameter
    set the required mechanisms (PKCE, nonce and response-type rules of the profiles, openid scope,
    dpop_jkt) are looked for in, and which one the session is built from:
 
@@ -25,6 +26,9 @@ Local Open Scope N_scope.
 Inductive gop :=
   | GAuthorize (q : jareq)                          (* /authorize: outer parameters + request / request_uri *)
   | GPar (r : preq) (o : option req_object)         (* /par: outer parameters + request *)
+  | GBc (r : breq) (o : option req_object)          (* /bc-authorize: outer parameters + request; the client's
+                                                       registered CIBA request signing algorithm (jworld) makes
+                                                       the object mandatory where the server has CIBA JAR enabled *)
   | GBase (o : op).                                 (* every other operation, as in Required.step_g *)
 
 (* the parameters an authorization started through the request object j is built from *)
@@ -63,6 +67,7 @@ Definition handler_gj (w : world) (jx : jworld) (n : nat) (now : Z) (o : gop) : 
   match o with
   | GAuthorize q => lift (init_auth_jar w jx n now q)
   | GPar r ob => lift (push_auth_jar w jx n now r ob)
+  | GBc r ob => lift (init_back_auth_jar w jx n now r ob)
   | GBase o => handler_g w n now o
   end.
 
